@@ -149,7 +149,7 @@ def gen_body(cx, name, depth, callees, indent, max_stmts, stmt_lines, in_loop=1)
             cost += 1 + it * 2
         elif k < 0.87:
             st = rng.choice(['x = one(x);', 'x = onerec({n}, x);', 'x = (|v: u64| {{ tick!(); v.wrapping_add({c}) }})(x);',
-                             'x = one(onerec({n}, x));'])
+                             'x = (|v: u64| {{ tick!(); v.rotate_left(3) ^ {c} }})(x ^ 1);', 'x = one(onerec({n}, x));'])
             ln = cx.emit(f'{pad}tick!(); ' + st.format(n=rng.randint(1, 4), c=_const(rng)))
             stmt_lines.append(ln)
             if '(|v' in st:
@@ -286,6 +286,9 @@ def gen(seed, budget=1500, nfuncs=None, rec_depth=None, signals=False):
             continue
         total += c
         sl.append(cx.emit(f"    tick!(); x = x.wrapping_add({ent['call'].format(a='x')});"))
+    ln = cx.emit('    tick!(); x = (|v: u64| { tick!(); v.wrapping_add(5) })(x);')
+    sl.append(ln)
+    cx.same_line_callee_lines.append(ln)
     sl.append(cx.emit(f"    tick!(); x ^= {rec_ent['call'].format(a='x')};"))
     sl.append(cx.emit(f'    tick!(); x ^= ping({md}, x);'))
     sl.append(cx.emit('    tick!(); mix(x);'))
